@@ -262,6 +262,13 @@ pub fn run(tier: Tier) -> ! {
         // `|` at top level of a context built around a syntax error stays a syntax error: the
         // expectation for planted *good* constructs is re-derived from the classification oracle.
         let expect = if *ok { classify(p) == Class::Supported } else { false };
+        // Slots 8..10 put two patterns with one token type and different lookaheads into a mode.
+        // Whether such a mode may build at all is not part of this property (rejecting it is a
+        // legitimate answer to the known finding S8), so only the "must be rejected" direction is
+        // judged there.
+        if expect && (8..=10).contains(slot) {
+            return;
+        }
         let cfg = in_slot(p, *slot);
         judge(acc, &format!("{} construct planted: pattern {p:?} in slot {slot}", if *ok { "supported" } else { "unsupported" }), &cfg, expect, false, "structured");
         if acc.samples.items.is_empty() && i % 977 == 0 {
@@ -294,6 +301,9 @@ pub fn run(tier: Tier) -> ! {
             let (p, ok) = &cases[i];
             let expect = if *ok { classify(p) == Class::Supported } else { false };
             for slot in [0usize, 3, 4, 7, 9, 10] {
+                if expect && (8..=10).contains(&slot) {
+                    continue;
+                }
                 judge(acc, &format!("long pattern ({} bytes) {}", p.len(), if expect { "supported" } else { "to be rejected" }), &in_slot(p, slot), expect, false, "long");
             }
             // a long mode name next to a rejected pattern
